@@ -264,6 +264,76 @@ theorem walk_sound (g : Graph) (o : Walk.Opts) (rk : Nat → Nat) (hrk : ∀ c p
       (∀ m, o.since = some m → m ≤ g.ts c) ∧ (∀ m, o.untl = some m → g.ts c ≤ m) :=
   Walk.walk_sound_all rk hrk h
 
+/-! ### laws between the walker's options (every history, every clock, every include / exclude / window) -/
+
+/-- the options `o` with order, reverse and limit replaced -/
+def withORM (o : Walk.Opts) (topo reverse : Bool) (mx : Option Nat) : Walk.Opts :=
+  { o with topo := topo, reverse := reverse, maxEntries := mx }
+
+theorem shouldReturn_withORM (g : Graph) (o : Walk.Opts) (topo reverse : Bool) (mx : Option Nat) (ex : List Nat) :
+    Walk.shouldReturn g (withORM o topo reverse mx) ex = Walk.shouldReturn g o ex := by
+  funext c; rfl
+
+/-- `reverse=True` yields exactly the reverse of what `reverse=False` yields under the same other options — in
+particular `max_entries` is applied BEFORE reversing (the N first entries, reversed). -/
+theorem walk_reverse_commutes (g : Graph) (o : Walk.Opts) (topo : Bool) (mx : Option Nat) :
+    Walk.walk g (withORM o topo true mx) = (Walk.walk g (withORM o topo false mx)).map List.reverse := by
+  unfold Walk.walk
+  simp only [shouldReturn_withORM]
+  simp only [withORM]
+  cases Walk.queueOutput g o.incl o.excl o.since with
+  | none => rfl
+  | some qe =>
+    obtain ⟨q, ex⟩ := qe
+    cases topo <;> cases mx <;> simp only [Bool.false_eq_true, if_false, if_true, Option.map_some]
+    all_goals first | rfl | (split <;> simp_all)
+
+/-- date order: `max_entries=N` yields the first `N` entries of the unlimited walk, in the same order. -/
+theorem walk_limit_prefix (g : Graph) (o : Walk.Opts) (n : Nat) :
+    Walk.walk g (withORM o false false (some n)) =
+      (Walk.walk g (withORM o false false none)).map (·.take n) := by
+  unfold Walk.walk
+  simp only [shouldReturn_withORM]
+  simp only [withORM]
+  cases Walk.queueOutput g o.incl o.excl o.since with
+  | none => rfl
+  | some qe =>
+    obtain ⟨q, ex⟩ := qe
+    simp
+
+/-- date order, `reverse=True`, `max_entries=N`: the first `N` entries of the unlimited forward walk, reversed. -/
+theorem reverse_commutes_with_limit (g : Graph) (o : Walk.Opts) (n : Nat) :
+    Walk.walk g (withORM o false true (some n)) =
+      (Walk.walk g (withORM o false false none)).map (fun l => (l.take n).reverse) := by
+  rw [walk_reverse_commutes, walk_limit_prefix]
+  cases Walk.walk g (withORM o false false none) <;> rfl
+
+/-- topo order is the `_topo_reorder` of the date-order walk under the same other options (the limit is applied
+first, the remaining entries are sorted) … -/
+theorem walk_topo_is_reorder (g : Graph) (o : Walk.Opts) (mx : Option Nat) :
+    Walk.walk g (withORM o true false mx) =
+      (Walk.walk g (withORM o false false mx)).bind (Walk.topoReorder g.parents) := by
+  unfold Walk.walk
+  simp only [shouldReturn_withORM]
+  simp only [withORM]
+  cases Walk.queueOutput g o.incl o.excl o.since with
+  | none => rfl
+  | some qe =>
+    obtain ⟨q, ex⟩ := qe
+    cases mx <;> simp only [Bool.false_eq_true, if_false, if_true, Option.bind_some]
+    all_goals first | rfl | (split <;> simp_all)
+
+/-- … hence on an acyclic history it yields the same commits as date order, each once: the order option only
+permutes. -/
+theorem walk_topo_same_commits (g : Graph) (o : Walk.Opts) (mx : Option Nat) (rk : Nat → Nat)
+    (hrk : ∀ c p, p ∈ g.parents c → rk p < rk c) (out outd : List Nat)
+    (h : Walk.walk g (withORM o true false mx) = some out)
+    (hd : Walk.walk g (withORM o false false mx) = some outd) : out.Perm outd := by
+  rw [walk_topo_is_reorder, hd] at h
+  simp only [Option.bind_some] at h
+  have hnd : outd.Nodup := (walk_sound g _ rk hrk outd hd).1
+  exact (Walk.topoLoop_correct hnd rk hrk _ _ _ _ (Walk.topoReorder_init g.parents outd) h).1
+
 /-! ### excludes on tied commit times: the catch-up test of `_step` (`n.commit_time >= self._last.commit_time`)
 
 Family: an included tip `Y` directly on a commit `B`; an excluded tip `X` on a chain of `k` commits on the same
